@@ -417,6 +417,7 @@ pub fn c02_probes() -> Vec<(&'static str, String)> {
         ("nested-retype-of-outer-variable", p("    mut x = 1\n    if True:\n        x = \"s\"\n    print(1)\n")),
         ("append-while-iterating", p("    mut ys = [1, 2]\n    for v in ys:\n        if v > 5:\n            ys.append(v)\n    print(len(ys))\n")),
         ("derive-partialord-alone", "@derive(PartialOrd)\nmodel M:\n    a: int\n\ndef main() -> None:\n    m = M(a=1)\n    print(1)\n".to_string()),
+        ("list-count-method", p("    xs = [1, 2, 1]\n    c = xs.count(1)\n    print(c)\n")),
         ("annotated-none-binding", p("    o: Option[int] = None\n    match o:\n        Some(v) => print(v)\n        None => print(0)\n")),
         ("default-parameter-omitted", "def f(a: int, b: int = 2) -> int:\n    return a + b\n\ndef main() -> None:\n    print(f(1))\n".to_string()),
         ("mutating-builtin-on-immutable-collection", p("    xs = [1]\n    xs.append(2)\n    print(len(xs))\n")),
